@@ -38,6 +38,7 @@ class LThread:
         self.what = ""
         self.real = None
         self.exc = None
+        self.pending_exc = None  # asynchronous exception (Scheduler.interrupt), raised at the next scheduling point
 
     def __repr__(self):
         return f"<LThread {self.name} {'blocked:' + self.what if self.pred else 'runnable'}>"
@@ -81,6 +82,20 @@ class Scheduler:
 
     def event(self, *what):
         self.log.append((self.current.name if self.current else "?",) + what)
+
+    def interrupt(self, thread, exc):
+        """Asynchronous exception for logical thread `thread` (e.g. the KeyboardInterrupt a SIGINT handler
+        raises in the main thread): a blocked `thread` becomes runnable, and `exc` is raised in it at its next
+        scheduling point (inside `block_until` / `yield_point`, like CPython raising between two bytecodes or
+        out of an interruptible lock wait).  Additive: runs that never call this behave as before."""
+        if thread.alive:
+            thread.pending_exc = exc
+
+    def _deliver_pending(self, cur):
+        exc = cur.pending_exc
+        if exc is not None and not self.aborted:
+            cur.pending_exc = None
+            raise exc
 
     # -- thread management ----------------------------------------------------------------
     def spawn(self, fn, args=(), name=None):
@@ -198,7 +213,7 @@ class Scheduler:
                 continue
             if t.pred is None:
                 cands.append(t)
-            elif t.pred():
+            elif t.pending_exc is not None or t.pred():
                 cands.append(t)
             elif t.deadline is not None:
                 timed.append(t)
@@ -253,7 +268,10 @@ class Scheduler:
             raise SchedAbort()
         if not self.in_logical_thread():
             return
-        self._reschedule(self.current)
+        cur = self.current
+        self._reschedule(cur)
+        if cur.pending_exc is not None:
+            self._deliver_pending(cur)
 
     def block_until(self, pred, timeout=None, what=""):
         """Scheduling point; then wait until pred() holds.  Returns False iff the (virtual) time-out expired."""
@@ -266,6 +284,8 @@ class Scheduler:
             return bool(pred())
         cur = self.current
         self._reschedule(cur)
+        if cur.pending_exc is not None:
+            self._deliver_pending(cur)
         if pred():
             return True
         if timeout is not None and timeout <= 0:
@@ -279,6 +299,9 @@ class Scheduler:
                 self._reschedule(cur)
             finally:
                 cur.pred = None
+            if cur.pending_exc is not None:
+                cur.timed_out = False
+                self._deliver_pending(cur)
             if cur.timed_out:
                 cur.timed_out = False
                 return bool(pred())
